@@ -233,6 +233,18 @@ def execute(sc, ctx) -> None:
             else:
                 if cur[: len(prev)] != prev:
                     raise mk("rewrote-earlier-bytes", f"{kind} #{len(writes)} on {rel}")
+                # every later write appends WHOLE samples at the depth the file's own header declares
+                try:
+                    hf, hl = filgen.parse_header(cur)
+                except filgen.HeaderError as e:
+                    raise mk("header-no-longer-parses", f"{rel}: {e}") from None
+                unit = hf["nbits"] * hf["nchans"]
+                if ((len(cur) - hl) * 8) % unit:
+                    raise mk("partial-sample-after-a-write", f"{kind} #{len(writes)} on {rel}: {len(cur) - hl} data bytes are not a whole number of {hf['nchans']}-channel {hf['nbits']}-bit samples (the header's own declaration)")
+                if kind == "cwrite":
+                    nel = int(np.asarray(payload).size)
+                    if (len(cur) - len(prev)) * 8 != nel * hf["nbits"]:
+                        raise mk("written-at-other-width-than-declared", f"{kind} #{len(writes)} on {rel}: {nel} values added {len(cur) - len(prev)} bytes, the header declares {hf['nbits']} bits per value")
             snaps[path] = cur
             writes.append((kind, rel, size_before, size_after - size_before))
 
